@@ -448,12 +448,14 @@ struct Outcome {
 }
 
 /// Process-environment variant of a plan for its second execution (a pure function of the plan):
-/// 0 = `cwd-removed`, 1 = `input-pipe` (--convert reads /dev/stdin, a pipe), anything else = none.
+/// 0 = `cwd-removed`, 1 = `input-pipe` (--convert reads /dev/stdin, a pipe), 2 = `output-full` (the
+/// output goes to /dev/full, where every write fails), anything else = none.
 fn env_variant(plan: &RgPlan) -> u8 {
     let d = digest_bytes(&serde_json::to_vec(plan).expect("plan serialises")) % 6;
     match (d, plan) {
         (0, _) => 0,
         (1, RgPlan::Convert { in_place: false, .. }) => 1,
+        (2, RgPlan::Convert { in_place: false, .. }) | (2, RgPlan::Gen { .. }) => 2,
         _ => 255,
     }
 }
@@ -470,6 +472,15 @@ fn run_once_env(plan: &RgPlan, force_dot: Option<bool>, env: u8) -> Outcome {
         RgPlan::Convert { .. } => 0,
     };
     let mut piped: Option<Vec<u8>> = None;
+    let mut outfile = outfile;
+    if env == 2 {
+        if let Some(i) = args.iter().position(|a| a == "-o") {
+            args.drain(i..i + 2);
+        }
+        args.push("-o".into());
+        args.push("/dev/full".into());
+        outfile = None;
+    }
     if env == 1 {
         if let Some(i) = args.iter().position(|a| a == "--convert") {
             piped = std::fs::read(&args[i + 1]).ok();
@@ -803,7 +814,13 @@ pub fn execute(plan: &RgPlan) -> RunOutcome {
         let again = run_once_env(plan, None, env);
         out.steps += 1;
         let refused = !again.sp.signal && !matches!(again.sp.status, Some(0) | Some(101) | None);
-        if env == 1 && refused && first.sp.status == Some(0) {
+        if env == 2 {
+            // G9: output that cannot be written is an error, never a silent success
+            bump(&mut stats, "fault.output-full");
+            if first.sp.status == Some(0) && !first.output.is_empty() && !refused {
+                vs.push(viol("G9", "output-full", format!("the same request with -o /dev/full (every write fails) ends with {:?}{} instead of reporting an error", again.sp.status, if again.sp.signal { " (signal)" } else { "" })));
+            }
+        } else if env == 1 && refused && first.sp.status == Some(0) {
             // a tool that refuses to convert from a pipe, with a message, reports an error
             bump(&mut stats, "probe.input-pipe-refused");
         } else if again.sp.status != first.sp.status || again.output != first.output {
